@@ -1002,9 +1002,9 @@ def _spec_hist(case, got):
         elif k == 'trans':
             cur = cur.translate(_table(h['m']))
         elif k == 'add':
-            exp_obs = [cur + h['t'], 'x']
+            exp_obs = [(cur + h['t']).upper(), 'x']          # a new sequence: the constructor upper-cases the whole
         elif k == 'radd':
-            exp_obs = [h['t'] + cur, 'x']
+            exp_obs = [(h['t'] + cur).upper(), 'x']
         elif k == 'len':
             exp_obs = len(cur)
         elif k == 'eq':
@@ -2001,7 +2001,7 @@ def _same_len_edit(rng, n):
     """A step that keeps the length of an n-residue sequence but may move its gaps."""
     r = rng.random()
     if r < 0.3 and n:
-        return {'k': 'set', 'ix': rng.randint(-n, n - 1), 'v': rng.choice('ACG--')}
+        return {'k': 'set', 'ix': rng.randint(-n, n - 1), 'v': rng.choice('ACG--' if rng.random() < 0.7 else 'acn-')}
     if r < 0.45:
         return {'k': 'reverse'}
     if r < 0.65:
@@ -2023,11 +2023,11 @@ def _rhstep(rng, n):
     if r < 0.6:
         return _same_len_edit(rng, n)
     if r < 0.68:
-        return {'k': 'set', 'ix': _rix(rng, n), 'v': _rs(rng, rng.choice([0, 1, 2, 3]), 'ACGT-')}
+        return {'k': 'set', 'ix': _rix(rng, n), 'v': _rs(rng, rng.choice([0, 1, 2, 3]), 'ACGT-' if rng.random() < 0.7 else 'ACgt-n')}
     if r < 0.74:
-        return {'k': 'iadd', 't': _rs(rng, rng.choice([0, 1, 3]), 'ACGT-')}
+        return {'k': 'iadd', 't': _rs(rng, rng.choice([0, 1, 3]), 'ACGT-' if rng.random() < 0.7 else 'ACgt-n')}
     if r < 0.82:
-        return {'k': rng.choice(['add', 'radd']), 't': _rs(rng, rng.choice([0, 1, 3]), 'ACGT-')}
+        return {'k': rng.choice(['add', 'radd']), 't': _rs(rng, rng.choice([0, 1, 3]), 'ACGT-' if rng.random() < 0.7 else 'ACgt-n')}
     if r < 0.9:
         return {'k': 'other', 'd': _rs(rng, n, GAPPED), 'gap': gap, 'ix': _rix(rng, n, contiguous=gap is not None)}
     return rng.choice([{'k': 'len'}, {'k': 'gc'}, {'k': 'eq', 't': _rs(rng, n, GAPPED)}])
